@@ -5,7 +5,6 @@
 package main
 
 import (
-	"bufio"
 	"encoding/json"
 	"flag"
 	"fmt"
@@ -40,6 +39,8 @@ type summary struct {
 	Samples      []string            `json:"samples"`
 	FailedCases  map[string][]string `json:"failed_cases"`
 	RefusedValid map[string]string   `json:"refused_valid"`
+	CaseLines    int                 `json:"case_lines"` // records written to cases.txt / impl.txt (END marker carries the same number)
+	ImplLines    int                 `json:"impl_lines"`
 }
 
 func safeImport(name, text string) (bus *acmelib.Bus, err error, panicked string) {
@@ -63,8 +64,8 @@ func safeParse(name, text string) (f *dbc.File, err error) {
 
 type runner struct {
 	sum     *summary
-	cases   *bufio.Writer
-	impl    *bufio.Writer
+	cases   *lib.LineFile
+	impl    *lib.LineFile
 	texts   string
 	seen    map[string]bool
 	verbose bool
@@ -343,9 +344,7 @@ func main() {
 	flag.Parse()
 
 	sum := &summary{Hist: map[string]int{}, Failures: map[string]failure{}, RefusedValid: map[string]string{}, FailedCases: map[string][]string{}}
-	cf, _ := os.Create(filepath.Join(*out, "cases.txt"))
-	imf, _ := os.Create(filepath.Join(*out, "impl.txt"))
-	rn := &runner{sum: sum, cases: bufio.NewWriterSize(cf, 1<<20), impl: bufio.NewWriterSize(imf, 1<<20), seen: map[string]bool{}}
+	rn := &runner{sum: sum, cases: lib.CreateLineFile(filepath.Join(*out, "cases.txt")), impl: lib.CreateLineFile(filepath.Join(*out, "impl.txt")), seen: map[string]bool{}}
 	r := &lib.Rng{S: *seed}
 
 	if *replay != "" {
@@ -425,10 +424,15 @@ func main() {
 			}
 		}
 	}
-	rn.cases.Flush()
-	rn.impl.Flush()
-	cf.Close()
-	imf.Close()
+	sum.CaseLines, sum.ImplLines = rn.cases.N, rn.impl.N
+	if err := rn.cases.Finish(); err != nil {
+		fmt.Println("cannot write cases.txt:", err)
+		os.Exit(4)
+	}
+	if err := rn.impl.Finish(); err != nil {
+		fmt.Println("cannot write impl.txt:", err)
+		os.Exit(4)
+	}
 	js, _ := json.MarshalIndent(sum, "", " ")
 	os.WriteFile(filepath.Join(*out, "summary.json"), js, 0644)
 	fmt.Printf("cases=%d imported=%d refused=%d parse_refused=%d failures=%d\n", sum.Cases, sum.Imported, sum.Refused, sum.ParseRefused, len(sum.Failures))
